@@ -56,6 +56,11 @@ pub fn retry3(mut f: impl FnMut(u32) -> CaseResult) -> CaseResult {
     }
 }
 
+/// Any byte stream (plain TCP, TLS over TCP)
+pub trait Duplex: AsyncRead + AsyncWrite + Unpin + Send {}
+impl<T: AsyncRead + AsyncWrite + Unpin + Send> Duplex for T {}
+pub type Link = Box<dyn Duplex>;
+
 /// What a probe of one TCP connection found
 #[derive(Clone, Debug, PartialEq, Eq)]
 pub enum Probe {
